@@ -3,7 +3,6 @@ package rig
 import (
 	"net/netip"
 
-	"github.com/pion/ice/v4"
 
 	"github.com/pion/stun/v3"
 
@@ -199,7 +198,7 @@ func (l *Ledger) onDeliver(dg *simnet.Datagram, to *simnet.Sock) {
 			s.NomValueBy[k] = true
 		}
 		if m.TrailingUnauthenticated && !m.UseCandidate && m.Nomination == nil &&
-			(m.M.Contains(stun.AttrUseCandidate) || m.M.Contains(stun.AttrType(ice.DefaultNominationAttribute))) {
+			(m.M.Contains(stun.AttrUseCandidate) || m.M.Contains(NominationAttr)) {
 			s.UnprotectedNomBy[k] = true
 		}
 	}
